@@ -1873,6 +1873,12 @@ func signingParamsForPublicKey(pub interface{}, requestedSigAlgo SignatureAlgori
 				err = errors.New("x509: cannot sign with hash function requested")
 				return
 			}
+			if hashFunc == MD5 {
+				// signature verification refuses MD5 (InsecureAlgorithmError):
+				// do not create what cannot be verified
+				err = errors.New("x509: signing with MD5 is not supported")
+				return
+			}
 			if requestedSigAlgo.isRSAPSS() {
 				sigAlgo.Parameters = rsaPSSParameters(hashFunc)
 			}
